@@ -265,6 +265,10 @@ class Discharger:
             return None, "bounds", "indexing with a run-time index in %s" % fn
         if kind == "assert":
             return None, "assert", "%s in %s" % (what, fn)
+        if re.search(r"^<(std::vec::Vec|\[)", what) and "as std::ops::Index<" in what and what.endswith("::index"):
+            r_ = self.index_under_length_test(f)
+            if r_ is not None:
+                return r_
         if re.search(r"(Hash|BTree)Map<.*as std::ops::Index<", what) and what.endswith("::index"):
             # `map[&k]` is `map.get(&k).unwrap()`: same obligation as the ensure-get idiom, for every indexing of a map field
             idxs = find_all(f.body, lambda n: n.get("k") == "index" and n["e"].get("k") == "field" and rx.is_var(n["e"]["e"], "self"))
@@ -317,6 +321,11 @@ class Discharger:
                 return self.never_built_precedence()
             if name.endswith("Expression::Global") or name == "Exp::Global":
                 return self.never_built_global()
+            if name.endswith("ErrMode::Incomplete"):
+                # the same premise as for `into_inner().unwrap()`: Incomplete needs a Partial<_> stream
+                partial = [k for k, fn2 in self.f.fns.items() if not fn2.test and find_all(fn2.node, lambda n: isinstance(n, dict) and n.get("k") == "path" and "Partial" in n.get("segs", []))]
+                gen = [cl["generics"] for bd in self.m.bodies.values() for cl in bd["calls"] if "Partial<" in cl["generics"]]
+                return (not partial and not gen), "not-partial", "the arm for ErrMode::Incomplete is reached only with a Partial<_> stream; uses of Partial in the crate: %d (syntax) / %d (resolved generic arguments)" % (len(partial), len(gen))
         return None, "never-built", "panicking arm `%s` in %s not recognised" % (psrc(arm["pat"]), fn)
 
     def set_cover_chars(self, f, mt, lits):
@@ -391,6 +400,66 @@ class Discharger:
         if ok2 is not None:
             return ok2, "set-cover", "arms cover %s; %s" % (sorted(have), det2)
         return None, "set-cover", "origin of the matched character in %s not recognised (%s)" % (fn, det2)
+
+    def index_under_length_test(self, f):
+        """Every `NAME[k]` (k a literal) of the function stands where a test on `NAME.len()` has established more than k
+        elements — the then-branch of `if NAME.len() == n` / `>= n` / `> m`, or the arm `n =>` of `match NAME.len()` — and
+        NAME is not shortened in between.  -> (ok, form, detail) or None when there is an indexing of another kind."""
+        idxs = find_all(f.body, lambda n: n.get("k") == "index")
+        if not idxs:
+            return None
+        SHORTEN = {"pop", "clear", "remove", "truncate", "drain", "swap_remove", "retain", "split_off", "take"}
+        dets = []
+        for ix in idxs:
+            name = rx.var_name(rx.peel(ix["e"]))
+            k = rx.int_const(ix["idx"])
+            if name is None or k is None or k < 0:
+                return None
+            ok_here = False
+            for br, least in self._length_guarded_regions(f.body, name):
+                if least > k and find_all(br, lambda n: n is ix) and not find_all(br, lambda n: n.get("k") == "mcall" and n["m"] in SHORTEN and rx.var_name(rx.peel(n["recv"])) == name):
+                    ok_here = True
+                    dets.append("%s[%d] where %s.len() ≥ %d" % (name, k, name, least))
+                    break
+            if not ok_here:
+                return None
+        return True, "len-arm", "every indexing stands under a length test that covers it: %s" % "; ".join(dets)
+
+    def _length_guarded_regions(self, body, name):
+        """[(region, least length established there)] for the tests on `name.len()` in `body`"""
+        out = []
+
+        def is_len(e_):
+            e_ = rx.peel(e_)
+            return e_.get("k") == "mcall" and e_["m"] == "len" and not e_["args"] and rx.var_name(rx.peel(e_["recv"])) == name
+
+        for n in find_all(body, lambda n: n.get("k") in ("if", "match")):
+            if n["k"] == "if" and n["cond"].get("k") == "binary":
+                c_ = n["cond"]
+                l_, r_, op = c_["lhs"], c_["rhs"], c_["op"]
+                if is_len(r_) and rx.int_const(l_) is not None:
+                    l_, r_ = r_, l_
+                    op = {"<": ">", ">": "<", "<=": ">=", ">=": "<="}.get(op, op)
+                v = rx.int_const(r_)
+                if is_len(l_) and v is not None:
+                    if op == "==":
+                        out.append((n["then"], v))
+                    elif op == ">=":
+                        out.append((n["then"], v))
+                    elif op == ">":
+                        out.append((n["then"], v + 1))
+                    elif op == "<" and n.get("else") is not None:
+                        out.append((n["else"], v))
+                    elif op == "<=" and n.get("else") is not None:
+                        out.append((n["else"], v + 1))
+                    elif op == "!=" and n.get("else") is not None:
+                        out.append((n["else"], v))
+            if n["k"] == "match" and is_len(n["scrut"]):
+                for arm in n["arms"]:
+                    lits = [p["v"] for p in rx.pat_cases(arm["pat"]) if p["k"] == "lit"]
+                    if lits and len(lits) == len(rx.pat_cases(arm["pat"])) and all(isinstance(v, int) for v in lits):
+                        out.append((arm["body"], min(lits)))
+        return out
 
     def bool_index_table(self, f):
         """Every indexing in `f` is `TABLE[usize::from(b)]` / `TABLE[b as usize]` with b a boolean and that dimension of the
@@ -733,6 +802,14 @@ class Discharger:
         infn = self.f.fn(self.an.role("parse_inner"))
         from . import c06
 
+        from .. import innerval
+
+        EV, _why = innerval.cached(self.f, self.b, self.an)
+        if EV is not None:
+            entry = self.an.role("prec_entry")
+            atom_only = all(s.startswith(self.f.fn(entry).module[0]) and "precedence" in s for s in sites)
+            mapped = EV["ok_tokens"] and EV["ok_empty"]
+            return (mapped and atom_only), "never-built", "Expression::Global is constructed only in %s (from Token::Global); the inner parse function replaces every Token::Global before the precedence parser runs: %s (%s)" % (sorted(set(sites)), mapped, innerval.how(EV))
         S = c06.inner_summary(self.b, infn)
         lexk, entryk = self.an.role("lex"), self.an.role("prec_entry")
         mapped = False
